@@ -26,12 +26,25 @@ static std::string mk_phrase(Rng &g, size_t len, int mode) {
   return s;
 }
 
+// Settings with an enabled prefix whose parameters are certainly malformed by crypt(5)'s syntax (non-numeric or
+// empty rounds, cost out of range or not two digits, truncated fields).  The statement names "malformed
+// parameters" as a must-fail class; this list is what the harness knows of it independently of the library.
+static const char *mal[][2] = {
+      {"sha512crypt", "$6$rounds=abc$saltsalt"}, {"sha512crypt", "$6$rounds=$saltsalt"}, {"sha512crypt", "$6$rounds=1000"}, {"sha256crypt", "$5$rounds=0x10$ab"},
+      {"sha256crypt", "$5$rounds=99999999999999999999$ab"}, {"bcrypt", "$2b$4$abcdefghijklmnopqrstuu"}, {"bcrypt", "$2b$99$abcdefghijklmnopqrstuu"},
+      {"bcrypt", "$2b$04$short"}, {"bcrypt_a", "$2a$04"}, {"bcrypt_y", "$2y$0a$abcdefghijklmnopqrstuu"}, {"bcrypt_x", "$2x$"}, {"sha1crypt", "$sha1$$"}, {"sha1crypt", "$sha1$x1$salt$"}, {"sha1crypt", "$sha1"}, {"sunmd5", "$md5,rounds=x$salt$"}, {"sunmd5", "$md5x$salt$"}, {"sunmd5", "$md5,rounds=4294967296$salt$"}, {"md5crypt", "$1"}, {"nt", "$3"}, {"bsdicrypt", "_abc"}, {"bsdicrypt", "_....ab"},
+      {"bsdicrypt", "_$$$$$$$$"}, {"yescrypt", "$y$"}, {"yescrypt", "$y$j9T"}, {"yescrypt", "$y$$$$"}, {"yescrypt", "$y$zzzzzzzzzzzzzzzz$abc$"},
+      {"gost_yescrypt", "$gy$j"}, {"scrypt", "$7$"}, {"scrypt", "$7$C"}, {"scrypt", "$7$C6....."}, {"scrypt", "$7$zzzzzzzzzzzz$"},
+      {"scrypt", "$7$/6..../....x"}};
+bool is_curated_malformed(const std::string &s) { for (auto &m : mal) if (s == m[1]) return true; return false; }
+
 struct SettingInfo { std::string m, s; int cost; };  // cost: 1 cheap .. 3 expensive
 struct Pool {
   std::vector<std::string> phrases;       // < 512 bytes
   std::vector<std::string> secrets;       // high-entropy, >= 12 bytes (C09)
   std::vector<SettingInfo> valid;
-  std::vector<std::pair<std::string, std::string>> malformed;  // (method, setting) with a valid prefix but bad parameters
+  std::vector<std::pair<std::string, std::string>> malformed;  // (method, setting) with a valid prefix but certainly malformed parameters
+  std::vector<std::pair<std::string, std::string>> odd;        // unusual spellings; no expectation
 };
 
 static const char *METHODS[] = {"yescrypt", "gost_yescrypt", "scrypt", "bcrypt", "bcrypt_y", "bcrypt_a", "bcrypt_x", "sha512crypt",
@@ -114,16 +127,10 @@ static Pool &pool_for(uint64_t poolseed) {
     RefOut r = RefClient::get().hash(Bytes(p.phrases[g.below(p.phrases.size())]), Bytes(si.s));
     if (r.ok) p.valid.push_back({si.m, r.str, si.cost});
   }
-  static const char *mal[][2] = {
-      {"sha512crypt", "$6$rounds=abc$saltsalt"}, {"sha512crypt", "$6$rounds=$saltsalt"}, {"sha512crypt", "$6$rounds=1000"}, {"sha256crypt", "$5$rounds=0x10$ab"},
-      {"sha256crypt", "$5$rounds=99999999999999999999$ab"}, {"bcrypt", "$2b$4$abcdefghijklmnopqrstuu"}, {"bcrypt", "$2b$99$abcdefghijklmnopqrstuu"},
-      {"bcrypt", "$2b$04$short"}, {"bcrypt_a", "$2a$04"}, {"bcrypt_y", "$2y$0a$abcdefghijklmnopqrstuu"}, {"bcrypt_x", "$2x$"}, {"sha1crypt", "$sha1$0$salt$"},
-      {"sha1crypt", "$sha1$$"}, {"sha1crypt", "$sha1$x1$salt$"}, {"sha1crypt", "$sha1"}, {"sunmd5", "$md5,rounds=x$salt$"}, {"sunmd5", "$md5,"},
-      {"sunmd5", "$md5x$salt$"}, {"sunmd5", "$md5,rounds=4294967296$salt$"}, {"md5crypt", "$1"}, {"nt", "$3"}, {"bsdicrypt", "_abc"}, {"bsdicrypt", "_....ab"},
-      {"bsdicrypt", "_$$$$$$$$"}, {"yescrypt", "$y$"}, {"yescrypt", "$y$j9T"}, {"yescrypt", "$y$$$$"}, {"yescrypt", "$y$zzzzzzzzzzzzzzzz$abc$"},
-      {"gost_yescrypt", "$gy$j"}, {"gost_yescrypt", "$gy$j9T$"}, {"scrypt", "$7$"}, {"scrypt", "$7$C"}, {"scrypt", "$7$C6....."}, {"scrypt", "$7$zzzzzzzzzzzz$"},
-      {"scrypt", "$7$/6..../....x"}};
   for (auto &m : mal) p.malformed.emplace_back(m[0], m[1]);
+  // unusual spellings whose validity is the tree's business (the reference decides): kept out of the must-fail list
+  static const char *odd[][2] = {{"sha1crypt", "$sha1$0$salt$"}, {"sunmd5", "$md5,"}, {"gost_yescrypt", "$gy$j9T$"}, {"yescrypt", "$y$j9T$"}, {"md5crypt", "$1$"}, {"sha512crypt", "$6$"}, {"sha256crypt", "$5$$"}};
+  for (auto &m : odd) p.odd.emplace_back(m[0], m[1]);
   return p;
 }
 
@@ -145,7 +152,7 @@ static Req valid_req(Rng &g, Pool &p, bool secret, int maxcost) {
 }
 static Req invalid_req(Rng &g, Pool &p, bool secret) {
   Req r = valid_req(g, p, secret, 3);
-  switch (g.below(10)) {
+  switch (g.below(11)) {
     case 0: r.ph = Bytes::Null(); r.cls = "null-phrase"; r.mustfail = true; break;
     case 1: r.st = Bytes::Null(); r.cls = "null-setting"; r.mustfail = true; break;
     case 2: r.ph = Bytes(mk_phrase(g, (size_t)g.range(512, 700), (int)g.below(2))); r.cls = "long-phrase"; r.mustfail = true; break;
@@ -165,12 +172,27 @@ static Req invalid_req(Rng &g, Pool &p, bool secret) {
       static const char *up[] = {"$9$abcdefgh", "$zz$abc$", "$", "$$", "$2$04$abcdefghijklmnopqrstuu", "$2c$04$abcdefghijklmnopqrstuu", "$8$", "$4$salt$", "$argon2id$v=19$m=16,t=2,p=1$c2FsdA$", "$0"};
       r.st = Bytes(std::string(up[g.below(10)])); r.cls = "unknown-prefix"; r.mustfail = true; r.m = "none"; break;
     }
+    case 8: {  // a numeric parameter field that is not a plain decimal number
+      static const char *pfx[] = {"$6$rounds=", "$5$rounds=", "$md5,rounds=", "$2b$", "$2y$", "$2a$"};
+      size_t k = g.below(6);
+      std::string num = k < 3 ? std::to_string(g.range(1000, 9000)) : "05";
+      switch (g.below(5)) {
+        case 0: num = "+" + num; break;
+        case 1: num = "-" + num; break;
+        case 2: num[g.below(num.size())] = "xa eO"[g.below(5)]; break;
+        case 3: num += "x"; break;
+        default: num = k < 3 ? "" : num.substr(0, 1); break;
+      }
+      std::string st = std::string(pfx[k]) + num + "$" + (k < 3 ? b64salt(g, 8) + "$" : std::string("abcdefghijklmnopqrstuu"));
+      r.st = Bytes(st); r.m = k == 0 ? "sha512crypt" : k == 1 ? "sha256crypt" : k == 2 ? "sunmd5" : "bcrypt"; r.cls = "bad-number"; r.mustfail = true; break;
+    }
     case 7: {  // truncation of a valid setting (may still be valid: the reference decides)
       std::string s = r.st.b; if (!s.empty()) s.resize(g.below(s.size())); r.st = Bytes(s); r.cls = "truncated"; break;
     }
     default: {
+      if (g.chance(1, 5)) { auto &m = p.odd[g.below(p.odd.size())]; r.st = Bytes(m.second); r.m = m.first; r.cls = "odd-spelling"; break; }
       auto &m = p.malformed[g.below(p.malformed.size())];
-      r.st = Bytes(m.second); r.m = m.first; r.cls = "malformed"; break;
+      r.st = Bytes(m.second); r.m = m.first; r.cls = "malformed"; r.mustfail = true; break;
     }
   }
   return r;
@@ -588,6 +610,15 @@ static J plan_c08(uint64_t seed, const std::string &tier) {
       ops.push(op);
     }
     t["ops"] = ops; p["tasks"].push(t);
+  }
+  // some plans hand the very same read-only phrase/setting buffer to several tasks
+  if (g.chance(1, 3)) {
+    Req r = valid_req(g, pool, false, 2);
+    J sh = J::arr(); sh.push(r.ph.to_json()); sh.push(r.st.to_json()); p["shared"] = sh;
+    for (auto &t : p["tasks"].a) for (auto &op : t["ops"].a) {
+      std::string k = op.str("k");
+      if ((k == "crypt_r" || k == "crypt_rn" || k == "crypt_ra") && !op.has("size") && g.chance(1, 2)) { op["phs"] = 0; op["sts"] = 1; op["ph"] = r.ph.to_json(); op["st"] = r.st.to_json(); op["m"] = r.m; op["cls"] = "valid"; op.o.erase(std::remove_if(op.o.begin(), op.o.end(), [](const std::pair<std::string, J> &kv) { return kv.first == "mustfail"; }), op.o.end()); }
+    }
   }
   J sch = J::obj(); sch["mode"] = "seeded"; sch["seed"] = (long long)(seed ^ 0x5ced); sch["d"] = (long long)g.below(9); sch["bias"] = g.chance(3, 4);
   p["schedule"] = sch;
